@@ -75,6 +75,20 @@ impl<'ast> Visit<'ast> for V {
             self.out.push(".keyCheck".into());
         }
     }
+    fn visit_expr_return(&mut self, r: &'ast syn::ExprReturn) {
+        syn::visit::visit_expr_return(self, r);
+        // a way out of the function before the string has been looked up at all (a string that is already
+        // present must be found whatever else holds)
+        if !self.out.iter().any(|e| e == ".fastGet" || e == ".lockEntry" || e == ".recheck") {
+            self.out.push(format!("(.other {})", lean::s(&format!("return before the lookup: {}", squash(&toks(r))))));
+        }
+    }
+    fn visit_expr_try(&mut self, t: &'ast syn::ExprTry) {
+        syn::visit::visit_expr_try(self, t);
+        if !self.out.iter().any(|e| e == ".fastGet" || e == ".lockEntry" || e == ".recheck") {
+            self.out.push(format!("(.other {})", lean::s(&format!("`?` before the lookup: {}", squash(&toks(t))))));
+        }
+    }
 }
 
 fn effects_of(file: &syn::File, name: &str) -> Vec<String> {
@@ -140,6 +154,19 @@ impl<'ast> Visit<'ast> for R {
     fn visit_expr_assign(&mut self, a: &'ast syn::ExprAssign) {
         syn::visit::visit_expr_assign(self, a);
         self.out.push(format!("(.other {})", lean::s(&squash(&toks(a)))));
+    }
+    fn visit_expr_return(&mut self, r: &'ast syn::ExprReturn) {
+        syn::visit::visit_expr_return(self, r);
+        // a way out of the function before the string has been looked up at all
+        if !self.out.iter().any(|e| e == ".probe") {
+            self.out.push(format!("(.other {})", lean::s(&format!("return before the lookup: {}", squash(&toks(r))))));
+        }
+    }
+    fn visit_expr_try(&mut self, t: &'ast syn::ExprTry) {
+        syn::visit::visit_expr_try(self, t);
+        if !self.out.iter().any(|e| e == ".probe") {
+            self.out.push(format!("(.other {})", lean::s(&format!("`?` before the lookup: {}", squash(&toks(t))))));
+        }
     }
     fn visit_expr_index(&mut self, a: &'ast syn::ExprIndex) {
         syn::visit::visit_expr_index(self, a);
